@@ -1,23 +1,41 @@
 #!/bin/bash
 # usage: extract.sh <src_dir> <out.json> <cfg: x86_64|aarch64|i686|x86_64+avx2> [crate_name]
+# Runs `cargo +nightly check --lib` on <src_dir> with the rsfacts driver as
+# RUSTC_WORKSPACE_WRAPPER and writes the facts of <crate_name> to <out.json>.
+# Host configurations use a fresh target dir (removed afterwards).  The build-std
+# configurations keep std's artifacts in /verif/.cache/tgt-<cfg> (35 s -> 3 s) and delete
+# every artifact and fingerprint of the analysed package first, so that cargo can never
+# skip the driver; the existence of the fact file is asserted.
 set -e
 SRC=$1; OUT=$2; CFG=$3; CRATE=${4:-reed_solomon_simd}
-DRV=/verif/engine/rsfacts/target/release/rsfacts
-T=$(mktemp -d /tmp/rsfacts_tgt.XXXXXX)
-trap 'rm -rf "$T"' EXIT
+VERIF=$(cd "$(dirname "$0")/.." && pwd)
+DRV=$VERIF/engine/rsfacts/target/release/rsfacts
 export LD_LIBRARY_PATH=$(rustc +nightly --print sysroot)/lib
 export CARGO_NET_OFFLINE=true
 FLAGS="-Zmir-opt-level=0 -Awarnings"
 EXTRA=""
+PERSIST=""
 case "$CFG" in
   x86_64) ;;
   x86_64+avx2) FLAGS="$FLAGS -C target-feature=+avx2" ;;
-  aarch64) EXTRA="--target aarch64-unknown-linux-gnu -Zbuild-std=std" ;;
-  i686) EXTRA="--target i686-unknown-linux-gnu -Zbuild-std=std" ;;
+  aarch64) EXTRA="--target aarch64-unknown-linux-gnu -Zbuild-std=std"; PERSIST=1 ;;
+  i686) EXTRA="--target i686-unknown-linux-gnu -Zbuild-std=std"; PERSIST=1 ;;
   *) echo "unknown cfg $CFG" >&2; exit 2 ;;
 esac
+if [ -n "$PERSIST" ] && [ -z "$VERIF_NO_CACHE" ]; then
+  T=$VERIF/.cache/tgt-$CFG
+  mkdir -p "$T"
+  PKG=$(echo "$CRATE" | tr '_' '-')
+  find "$T" \( -name "${PKG}-*" -o -name "lib${CRATE}-*" -o -name "${CRATE}-*" \) -prune -exec rm -rf {} + 2>/dev/null || true
+  LOG=$(mktemp /tmp/rsfacts_log.XXXXXX)
+  trap 'rm -f "$LOG"' EXIT
+else
+  T=$(mktemp -d /tmp/rsfacts_tgt.XXXXXX)
+  LOG=$T/log
+  trap 'rm -rf "$T"' EXIT
+fi
 rm -f "$OUT"
 cd "$SRC"
 RUSTFLAGS="$FLAGS" RUSTC_WORKSPACE_WRAPPER=$DRV RSFACTS_OUT="$OUT" RSFACTS_CRATE=$CRATE CARGO_TARGET_DIR=$T \
-  cargo +nightly check --offline --lib $EXTRA >"$T/log" 2>&1 || { tail -40 "$T/log" >&2; exit 3; }
-test -s "$OUT" || { echo "no facts written" >&2; tail -20 "$T/log" >&2; exit 3; }
+  cargo +nightly check --offline --lib $EXTRA >"$LOG" 2>&1 || { tail -40 "$LOG" >&2; exit 3; }
+test -s "$OUT" || { echo "no facts written (driver was skipped?)" >&2; tail -20 "$LOG" >&2; exit 3; }
